@@ -35,14 +35,18 @@ def run_case(case):
         2-octet header)."""
         import nfc.llcp
         m = llc.cfg['send-miu']
-        sock = nfc.llcp.Socket(llc, nfc.llcp.LOGICAL_DATA_LINK)
-        sock.bind(40)
+        socks = []
+        for addr in (40, 42, 43):
+            sock = nfc.llcp.Socket(llc, nfc.llcp.LOGICAL_DATA_LINK)
+            sock.bind(addr)
+            socks.append(sock)
         a = (m - 12) // 3
         p = first
-        for d in (-1, 0, 1, 2):
-            for n in (a, a, m - 12 - 2 * a + d):
-                sock.sendto(bytes([0x30 + d & 0xFF]) * n, 41,
-                            nfc.llcp.MSG_DONTWAIT)
+        # the three datagrams wait on one access point, then on three
+        for d, spread in ((d, k) for k in (0, 1) for d in (-1, 0, 1, 2)):
+            for i, n in enumerate((a, a, m - 12 - 2 * a + d)):
+                socks[i * spread].sendto(bytes([0x30 + d & 0xFF]) * n, 41,
+                                         nfc.llcp.MSG_DONTWAIT)
             for _ in range(3):
                 frame = llc.collect() or pdu.Symmetry()
                 size = len(pdu.encode(frame)) - 2
@@ -50,7 +54,8 @@ def run_case(case):
                 agg['agf'] += frame.name == 'AGF'
                 if size > m:
                     agg['bad'].append((llc.cfg['send-miu'], d, size,
-                                       frame.name))
+                                       frame.name + ('|several-saps' if spread
+                                                     else '')))
                 p = llc.exchange(frame, 1.0)
         return p
     agg = dict(max=0, agf=0, bad=[])
@@ -72,11 +77,11 @@ def run_case(case):
         n = llc.cfg['send-miu']
         p = llc.exchange(None, 2.0)
         if ctx['llc']['ini'].cfg['send-agf']:
-            # the initiator runs 12 aggregation exchanges first
+            # the initiator runs 24 aggregation exchanges first
             if llc.cfg['send-agf']:
                 p = agg_round(llc, p)
             else:
-                for _ in range(12):
+                for _ in range(24):
                     p = llc.exchange(pdu.Symmetry(), 1.0)
         elif llc.cfg['send-agf']:
             pass      # nothing to answer: aggregation is checked on the
